@@ -4,8 +4,10 @@ import CharsetProof.Lemmas.TotalOn
 import CharsetProof.Props.C02
 import CharsetProof.Props.C02b
 import CharsetProof.Props.C02c
+import CharsetProof.Props.Full
 open Charset
 #print axioms C02_full
+#print axioms detection_full
 #print axioms worldFull_totalOn
 #print axioms decodeNow_total_supported
 #print axioms targetsCoverSupported
